@@ -55,8 +55,11 @@ theorem varint_classes (x : Nat) :
     ∧ (2288 ≤ x → x < 67824 → uvEnc x = [249, UInt8.ofNat ((x - 2288) / 256), UInt8.ofNat ((x - 2288) % 256)])
     ∧ (67824 ≤ x → x < 2 ^ 24 → uvEnc x = 250 :: beBytes 3 x)
     ∧ (2 ^ 24 ≤ x → x < 2 ^ 32 → uvEnc x = 251 :: beBytes 4 x)
+    ∧ (2 ^ 32 ≤ x → x < 2 ^ 40 → uvEnc x = 252 :: beBytes 5 x)
+    ∧ (2 ^ 40 ≤ x → x < 2 ^ 48 → uvEnc x = 253 :: beBytes 6 x)
+    ∧ (2 ^ 48 ≤ x → x < 2 ^ 56 → uvEnc x = 254 :: beBytes 7 x)
     ∧ (2 ^ 56 ≤ x → uvEnc x = 255 :: beBytes 8 x) := by
-  refine ⟨?_, ?_, ?_, ?_, ?_, ?_⟩
+  refine ⟨?_, ?_, ?_, ?_, ?_, ?_, ?_, ?_, ?_⟩
   · intro h; simp [uvEnc, h]
   · intro h1 h2
     have : ¬ x < 241 := by omega
@@ -76,6 +79,30 @@ theorem varint_classes (x : Nat) :
     have c : ¬ x < 67824 := by omega
     have d : ¬ x < 2 ^ 24 := by omega
     simp [uvEnc, a, b, c, d, h2]
+  · intro h1 h2
+    have a : ¬ x < 241 := by omega
+    have b : ¬ x < 2288 := by omega
+    have c : ¬ x < 67824 := by omega
+    have d : ¬ x < 2 ^ 24 := by omega
+    have e : ¬ x < 2 ^ 32 := by omega
+    simp [uvEnc, a, b, c, d, e, h2]
+  · intro h1 h2
+    have a : ¬ x < 241 := by omega
+    have b : ¬ x < 2288 := by omega
+    have c : ¬ x < 67824 := by omega
+    have d : ¬ x < 2 ^ 24 := by omega
+    have e : ¬ x < 2 ^ 32 := by omega
+    have f : ¬ x < 2 ^ 40 := by omega
+    simp [uvEnc, a, b, c, d, e, f, h2]
+  · intro h1 h2
+    have a : ¬ x < 241 := by omega
+    have b : ¬ x < 2288 := by omega
+    have c : ¬ x < 67824 := by omega
+    have d : ¬ x < 2 ^ 24 := by omega
+    have e : ¬ x < 2 ^ 32 := by omega
+    have f : ¬ x < 2 ^ 40 := by omega
+    have g : ¬ x < 2 ^ 48 := by omega
+    simp [uvEnc, a, b, c, d, e, f, g, h2]
   · intro h1
     have a : ¬ x < 241 := by omega
     have b : ¬ x < 2288 := by omega
